@@ -21,11 +21,12 @@ RULE = ("Generated: portfolio (contracts, takes, transports, multi-commodity, st
         "prices the optimal value is unchanged; the call raises nothing. Non-trivial: window non-empty and proper, "
         ">= 1 pinned variable with non-zero value, and (new prices change the optimum or a variable with several "
         "mapping rows is pinned). Distinct = distinct spec hash.")
-ASSUMPTIONS = ["date form: the date lies strictly between two grid points (inclusive/exclusive at a grid point is not specified)",
-               "coarse-frequency / periodic assets are not generated here (a merged variable belongs to several steps)"]
+ASSUMPTIONS = ["date form: the date lies strictly between two grid points (inclusive/exclusive at a grid point is not specified); "
+               "on zone-aware grids the date is an aware stamp, in half of the cases written in UTC",
+               "a variable of a coarse-frequency / periodic asset belongs to all its steps: it is pinned if any of them lies in the window"]
 
 CLASSES = ["simple", "simple", "contract", "transport", "transport", "storage", "storage", "multi", "multi",
-           "orderbook", "plant", "chp", "chp", "scaled", "structured"]
+           "orderbook", "plant", "chp", "chp", "scaled", "structured", "coarse", "coarse", "periodic"]
 
 
 @st.composite
@@ -35,7 +36,7 @@ def _strategy(draw):
     form = draw(st.sampled_from(["mask", "index", "date"]))
     if form == "date":
         k = draw(st.integers(0, T - 1))
-        spec["fix"] = {"form": "date", "k": k}
+        spec["fix"] = {"form": "date", "k": k, "utc": draw(st.booleans())}
     elif form == "mask":
         m = draw(st.lists(st.booleans(), min_size=T, max_size=T))
         if draw(st.booleans()):
@@ -75,6 +76,8 @@ def check(spec):
         # halfway between grid point k and k+1
         a, b = tl.point(g, fx["k"]), tl.point(g, fx["k"] + 1)
         I = a + (b - a) / 2
+        if fx.get("utc") and I.tzinfo is not None:
+            I = I.tz_convert("UTC")       # the same instant written in another zone
         win = [t <= fx["k"] for t in range(T)]
     elif fx["form"] == "mask":
         I = np.array(fx["mask"], bool)
